@@ -378,3 +378,61 @@ class ResTargetInit(ResTarget):
 
     def ping(self, t):
         return t
+
+
+def harness_yield(kind="method-body"):
+    """a scheduling point inside a remote method body (lets the explorer interleave concurrent calls)"""
+    from vf import sched as _S
+    s = _S.Scheduler.current
+    if s is not None and not s.aborting and s.me() is not None:
+        s.point(kind)
+
+
+@server.expose
+class CtxTarget(object):
+    """records the call context every method sees; sets response annotations tagged with the request's own id"""
+    def __init__(self):
+        self.seen = []
+
+    def _record(self, kind, tag):
+        c = current_context
+        ann = {k: bytes(v) for k, v in (c.annotations or {}).items()}
+        peer = None
+        try:
+            peer = c.client.sock.getpeername() if c.client is not None else None
+        except Exception:
+            peer = "closed"
+        self.seen.append({"kind": kind, "tag": tag, "reqi": ann.get("REQI"), "seq": c.seq, "flags": c.msg_flags, "ser": c.serializer_id,
+                          "corr": str(c.correlation_id), "peer": peer, "addr": c.client_sock_addr})
+
+    def ret_assign(self, tag):
+        self._record("ret_assign", tag)
+        harness_yield()
+        current_context.response_annotations = {"RSPA": tag.encode()}
+        harness_yield()
+        self._record("ret_assign-late", tag)
+        return tag
+
+    def ret_update(self, tag):
+        self._record("ret_update", tag)
+        current_context.response_annotations["RSPU"] = tag.encode()
+        harness_yield()
+        return tag
+
+    def raise_after_set(self, tag):
+        self._record("raise_after_set", tag)
+        current_context.response_annotations["RSPX"] = tag.encode()
+        harness_yield()
+        raise ValueError(tag)
+
+    @server.oneway
+    def ow_set(self, tag):
+        self._record("ow_set", tag)
+        harness_yield("oneway-body")
+        current_context.response_annotations["RSPO"] = tag.encode()
+        harness_yield("oneway-body")
+        self._record("ow_set-late", tag)
+
+    def plain(self, tag):
+        self._record("plain", tag)
+        return tag
